@@ -1033,6 +1033,14 @@ func describePath(g *routerGen, path []*redge, last *redge) []string {
 
 // replayEdge rebuilds the source state along the BFS tree, performs the edge's call and compares.
 func (rr *routerReplayer) replayEdge(e *redge) {
+	if rr.r.tooManyViolations() {
+		return
+	}
+	hist := func() []string { return describePath(rr.g, rr.pathTo(e.from), e) }
+	rr.r.guard("router history "+strings.Join(hist(), " ; "), func() map[string]any { return map[string]any{"history": hist()} }, func() { rr.replayEdgeInner(e) })
+}
+
+func (rr *routerReplayer) replayEdgeInner(e *redge) {
 	c := newConcrete(rr.g)
 	defer c.close()
 	path := rr.pathTo(e.from)
@@ -1092,6 +1100,7 @@ func exploreRouter(r *Run, g *routerGen, timeout time.Duration, maxEdges int) *r
 		},
 	})
 	res.mustClean("MC_Router")
+	outf("  explored pool=%v methods=%v txns=%d snaps=%d: %d states, %d edges\n", g.Pool, g.Methods, g.Txns, g.Snaps, res.Distinct, len(rr.edges))
 	r.addCov("states", res.Distinct)
 	r.addCov("transitions", res.Generated)
 	if len(rr.edges) == 0 {
